@@ -12,7 +12,6 @@ package main
 import (
 	"bufio"
 	"bytes"
-	"context"
 	"crypto/sha256"
 	"encoding/base64"
 	"encoding/json"
@@ -20,10 +19,9 @@ import (
 	"hash/fnv"
 	"math/rand"
 	"os"
-	"path/filepath"
 	"runtime"
-	"runtime/debug"
 	"runtime/metrics"
+	"slices"
 	"sort"
 	"strconv"
 	"strings"
@@ -31,7 +29,6 @@ import (
 
 	. "verif/harness/hlib"
 
-	"github.com/google/osv-scalibr/extractor/filesystem"
 	scalibrfs "github.com/google/osv-scalibr/fs"
 )
 
@@ -45,6 +42,11 @@ type unit struct {
 	Exec    bool   `json:"exec"`
 	Plans   []int  `json:"plans"` // indices into the plans file
 	HardMs  int    `json:"hard_ms,omitempty"` // override of the confirmation budget (witnesses of listed finding classes)
+	// Target != "": the plans are applied to this COMPANION file (seeded from Seed) while the required
+	// file (Fixture at Path) stays as it is
+	Target     string      `json:"target,omitempty"`
+	Seed       string      `json:"seed,omitempty"`
+	Companions []companion `json:"companions,omitempty"` // valid companion files present in the sandbox
 }
 
 func loadPlans(path string) ([]*plan, [][]byte, error) {
@@ -92,6 +94,7 @@ type evalRes struct {
 	pkgs  int
 	err   error
 	panic string
+	bad   string // the returned inventory cannot be consumed by the engine
 }
 
 var (
@@ -137,8 +140,22 @@ func mutateChild(e *Env, job []byte, m *emitter) error {
 		return err
 	}
 	defer os.RemoveAll(root)
-	// files the extractor opens itself next to the required one are present and valid
-	for _, c := range inf.Companions {
+	if u.Target != "" {
+		if err := writeAt(root, u.Path, data, u.Exec); err != nil {
+			return err
+		}
+		if data, err = fixtureBytes(repoDir(e), u.Seed); err != nil {
+			return err
+		}
+	}
+	// files the extractor reads next to the required one are present and valid
+	for _, c := range u.Companions {
+		if c.Path == u.Target || c.Path == u.Path {
+			continue
+		}
+		if u.Target == osReleasePaths[1] && c.Path == osReleasePaths[0] {
+			continue // usr/lib/os-release is read only when etc/os-release is absent
+		}
 		cd, err := fixtureBytes(repoDir(e), c.Fixture)
 		if err != nil {
 			return err
@@ -148,15 +165,6 @@ func mutateChild(e *Env, job []byte, m *emitter) error {
 		}
 	}
 	sfs := scalibrfs.DirFS(root)
-	// at most maxConfirm timeouts per extractor get the 10x confirmation (100 s each); later slow
-	// evaluations of the same extractor end at the soft limit and are reported as "Slow" (not a verdict)
-	confirmFile := filepath.Join(e.Tmp, "confirmed-"+strings.ReplaceAll(u.Ex, "/", "_"))
-	confirmed := func() int {
-		if fi, err := os.Stat(confirmFile); err == nil {
-			return int(fi.Size())
-		}
-		return 0
-	}
 	n, changed, errs, withPkgs := 0, 0, 0, 0
 	var maxDur time.Duration
 	slow := []int{}
@@ -166,78 +174,23 @@ func mutateChild(e *Env, job []byte, m *emitter) error {
 		}
 		mut := applyPlan(data, childPlans[pi])
 		nontrivial := !bytes.Equal(mut, data)
-		if err := writeAt(root, u.Path, mut, u.Exec); err != nil {
+		if u.Target != "" {
+			if err := writeAt(root, u.Target, mut, false); err != nil {
+				return err
+			}
+		} else if err := writeAt(root, u.Path, mut, u.Exec); err != nil {
 			return err
 		}
 		ex, err := boundedExtractor(u.Ex)
 		if err != nil {
 			return err
 		}
-		base := liveBytes()
-		if base > 256<<20 {
-			runtime.GC()
-			debug.FreeOSMemory()
-			base = liveBytes()
-		}
 		m.begin(map[string]any{"u": u.U, "p": pi})
-		ch := make(chan evalRes, 1)
-		ctx, cancel := context.WithCancel(context.Background())
-		start := time.Now()
-		go func(ex filesystem.Extractor) {
-			var r evalRes
-			defer func() {
-				if rec := recover(); rec != nil {
-					r.panic = fmt.Sprintf("%v\n%s", rec, debug.Stack())
-				}
-				ch <- r
-			}()
-			inv, err := callExtract(ctx, ex, sfs, root, u.Path)
-			r.pkgs, r.err = len(inv.Packages), err
-		}(ex)
-		tick := time.NewTicker(5 * time.Millisecond)
-		var res evalRes
-		class := ""
-		var peak uint64
-		wasSlow := false
-	wait:
-		for {
-			select {
-			case res = <-ch:
-				class = "Returned"
-				if res.panic != "" {
-					class = "Panic"
-				}
-				break wait
-			case <-tick.C:
-				if lb := liveBytes(); lb > base && lb-base > peak {
-					peak = lb - base
-				}
-				if peak > budget {
-					class = "OOM"
-					break wait
-				}
-				el := time.Since(start)
-				if el > soft && !wasSlow {
-					wasSlow = true
-					slow = append(slow, pi)
-					if hard > soft && confirmed() >= maxConfirm {
-						class = "Slow"
-						break wait
-					}
-				}
-				if el > hard {
-					class = "Timeout"
-					if f, err := os.OpenFile(confirmFile, os.O_APPEND|os.O_CREATE|os.O_WRONLY, 0o644); err == nil {
-						f.Write([]byte{'x'})
-						f.Close()
-					}
-					break wait
-				}
-			}
+		o := evaluate(e, u.Ex, ex, sfs, root, u.Path, soft, hard, budget)
+		class, res, peak, dur := o.class, o.res, o.peak, o.dur
+		if o.wasSlow {
+			slow = append(slow, pi)
 		}
-		tick.Stop()
-		cancel()
-		dur := time.Since(start)
 		if dur > maxDur {
 			maxDur = dur
 		}
@@ -255,6 +208,8 @@ func mutateChild(e *Env, job []byte, m *emitter) error {
 			}
 		case "Panic":
 			m.result(map[string]any{"u": u.U, "p": pi, "class": class, "detail": res.panic, "nontrivial": nontrivial, "ms": dur.Milliseconds()})
+		case "BadInventory":
+			m.result(map[string]any{"u": u.U, "p": pi, "class": class, "detail": res.bad + fmt.Sprintf(" (Extract returned err=%v)", res.err), "nontrivial": nontrivial, "ms": dur.Milliseconds()})
 		default:
 			// the evaluation is still running and cannot be stopped: report, then give up this process
 			m.result(map[string]any{"u": u.U, "p": pi, "class": class, "nontrivial": nontrivial, "ms": dur.Milliseconds(), "peak_bytes": peak,
@@ -474,6 +429,37 @@ func init() {
 		meta := map[string]any{}
 		skipped := []map[string]string{}
 		covered := []map[string]any{}
+		// probing the unmodified fixtures: natural path of each fixture, companions each extractor reads
+		if err := computeFormats(e, reg, 8); err != nil {
+			return err
+		}
+		companionUnits, memberSkipped := 0, 0
+		noSeedNotes := []string{}
+		zipCount := map[string]int{}
+		members := func(fx string) int {
+			if n, ok := zipCount[fx]; ok {
+				return n
+			}
+			data, err := fixtureBytes(repo, fx)
+			n := -1
+			if err == nil {
+				n = zipMemberCount(data)
+			}
+			zipCount[fx] = n
+			return n
+		}
+		// plans that address an archive member make sense only for fixtures that are archives with such a member
+		applicable := func(fx string, idx []int) []int {
+			out := idx[:0:0]
+			for _, pi := range idx {
+				if k := plans[pi].member(); k >= 0 && k >= members(fx) {
+					memberSkipped++
+					continue
+				}
+				out = append(out, pi)
+			}
+			return out
+		}
 		for _, inf := range reg {
 			if !inf.Offline {
 				skipped = append(skipped, map[string]string{"extractor": inf.Name, "reason": inf.SkipReason})
@@ -491,26 +477,64 @@ func init() {
 				continue
 			}
 			nu := 0
+			comps, noSeed := allCompanions(inf)
+			for _, ns := range noSeed {
+				noSeedNotes = append(noSeedNotes, inf.Name+": "+ns)
+			}
 			for _, fx := range inf.Fixtures {
 				if e.Args["fixture"] != "" && e.Args["fixture"] != fx.Rel {
 					continue
 				}
-				for _, p := range paths {
+				// the first path classes, plus the class on which this fixture is extracted best
+				fpaths := append([]string(nil), paths...)
+				if bp := inf.bestPath[fx.Rel]; bp != "" && inf.bestScore[fx.Rel] > 0 && !slices.Contains(fpaths, bp) {
+					fpaths = append(fpaths, bp)
+				}
+				for _, p := range fpaths {
 					if e.Args["path"] != "" && e.Args["path"] != p {
 						continue
 					}
-					u := &unit{U: len(units), Ex: inf.Name, Fixture: fx.Rel, Path: p, Exec: inf.NeedExec[p]}
-					u.Plans = pick(u.U, inf.Name, fx.Rel, p)
+					if e.Args["target"] != "" {
+						continue
+					}
+					u := &unit{U: len(units), Ex: inf.Name, Fixture: fx.Rel, Path: p, Exec: inf.NeedExec[p], Companions: comps}
+					u.Plans = applicable(fx.Rel, pick(u.U, inf.Name, fx.Rel, p))
 					sizes[u.U] = fx.Size
 					units = append(units, u)
 					nu++
 				}
 			}
-			if e.Args["ex"] != "" && e.Args["path"] != "" && nu == 0 {
+			// companion units: the required file stays valid, the depth-1 plans are applied to the companion
+			for _, c := range comps {
+				main := inf.openedBy[c.Path]
+				if main[0] == "" && len(inf.Formats) > 0 {
+					main = [2]string{inf.Formats[0].Fixture, inf.Formats[0].Path}
+				}
+				if main[0] == "" || main[0] == c.Fixture && main[1] == c.Path {
+					continue
+				}
+				if e.Args["fixture"] != "" && e.Args["fixture"] != main[0] || e.Args["path"] != "" && e.Args["path"] != main[1] {
+					continue
+				}
+				if e.Args["target"] != "" && e.Args["target"] != c.Path || e.Args["target"] == "" && e.Args["path"] != "" {
+					continue
+				}
+				u := &unit{U: len(units), Ex: inf.Name, Fixture: main[0], Path: main[1], Exec: inf.NeedExec[main[1]], Companions: comps,
+					Target: c.Path, Seed: c.Fixture}
+				for _, pi := range pick(u.U, inf.Name, main[0], main[1]+"|"+c.Path) {
+					if len(plans[pi].Ops) <= 1 && plans[pi].member() < 0 {
+						u.Plans = append(u.Plans, pi)
+					}
+				}
+				units = append(units, u)
+				companionUnits++
+				nu++
+			}
+			if e.Args["ex"] != "" && e.Args["path"] != "" && e.Args["target"] == "" && nu == 0 {
 				// replay of a path outside today's pick: take it as given
 				for _, fx := range inf.Fixtures {
 					if e.Args["fixture"] == "" || e.Args["fixture"] == fx.Rel {
-						u := &unit{U: len(units), Ex: inf.Name, Fixture: fx.Rel, Path: e.Args["path"], Exec: !acceptsMode(inf.Ex, e.Args["path"], 0o644)}
+						u := &unit{U: len(units), Ex: inf.Name, Fixture: fx.Rel, Path: e.Args["path"], Exec: !acceptsMode(inf.Ex, e.Args["path"], 0o644), Companions: comps}
 						u.Plans = pick(u.U, inf.Name, fx.Rel, u.Path)
 						units = append(units, u)
 						nu++
@@ -632,9 +656,13 @@ func init() {
 		t0 := time.Now()
 		notRun := 0
 		finding := func(u *unit, pi int, class, detail string, extra map[string]any) {
-			data, _ := fixtureBytes(repoDir(e), u.Fixture)
+			src := u.Fixture
+			if u.Target != "" {
+				src = u.Seed
+			}
+			data, _ := fixtureBytes(repoDir(e), src)
 			mut := applyPlan(data, plans[pi])
-			rec := map[string]any{"finding": true, "u": u.U, "ex": u.Ex, "fixture": u.Fixture, "path": u.Path, "exec": u.Exec, "p": pi,
+			rec := map[string]any{"finding": true, "u": u.U, "ex": u.Ex, "fixture": u.Fixture, "path": u.Path, "exec": u.Exec, "p": pi, "target": u.Target, "seed": u.Seed,
 				"plan": plans[pi], "plan_str": plans[pi].String(), "class": class, "detail": detail,
 				"nontrivial": !bytes.Equal(mut, data), "size": len(mut), "sha256": fmt.Sprintf("%x", sha256.Sum256(mut))}
 			// the reproducing bytes: always for small files, and for the first findings of each <extractor, class>
@@ -723,12 +751,15 @@ func init() {
 		meta["units"] = len(units)
 		meta["jobs_not_run"] = notRun
 		meta["skipped_known_class"] = skippedKnown
+		meta["companion_units"] = companionUnits
+		meta["companions_without_seed"] = noSeedNotes
+		meta["member_plans_not_applicable"] = memberSkipped
 		meta["skipped"] = skipped
 		meta["covered"] = covered
 		meta["wall_s"] = time.Since(t0).Seconds()
 		ul := []map[string]any{}
 		for _, u := range units {
-			ul = append(ul, map[string]any{"u": u.U, "ex": u.Ex, "fixture": u.Fixture, "path": u.Path, "plans": len(u.Plans)})
+			ul = append(ul, map[string]any{"u": u.U, "ex": u.Ex, "fixture": u.Fixture, "path": u.Path, "target": u.Target, "plans": len(u.Plans)})
 		}
 		meta["unit_list"] = ul
 		enc(map[string]any{"meta": meta})
